@@ -19,6 +19,8 @@ def _exit_guards(loop: ast.AST) -> list[set[str]]:
 
     inner = {id(x) for x in ast.walk(loop)}
     out = []
+    if isinstance(loop, ast.While) and not (isinstance(loop.test, ast.Constant) and loop.test.value is True):
+        out.extend(guard_alternatives([(loop.test, False)]))     # leaving through the loop condition
     for x in ast.walk(loop):
         if isinstance(x, (ast.Break, ast.Return)):
             gs = [(t, p) for t, p in guards_of(x) if id(getattr(t, "_orig", t)) in inner]
@@ -49,7 +51,7 @@ def run(ctx: Context) -> None:
         _eof(ctx, tree, N, rule="C02.R5")
         # ---- R1 batch dispatch (HTTP/2)
         re_ = h2.methods["_receive_events"]
-        ev_loops = [l for l in loops_of(re_) if isinstance(l, (ast.For, ast.AsyncFor)) and norm(l.iter) == "events"]
+        ev_loops = [l for l in loops_of(re_) if isinstance(l, (ast.For, ast.AsyncFor)) and (norm(l.iter) == "events" or "self._read_incoming_data(" in norm(l.iter))]
         rep.floor("C02.R1", f"event dispatch loop ({tree})", len(ev_loops), 1)
         for l in ev_loops:
             src = [norm(a).replace("await", "") for a in ctx.prov.expand(l.iter, re_, l)]
@@ -118,7 +120,10 @@ def run(ctx: Context) -> None:
         b2 = h2.methods["_receive_response_body"]
         for l in [x for x in loops_of(b2) if isinstance(x, ast.While)]:
             ys = [y for y in ast.walk(l) if isinstance(y, ast.Yield)]
-            ok = len(ys) == 1 and norm(ys[0].value) == "event.data" and local_guards(ys[0], l) == {"isinstance(event,h2.events.DataReceived)"}
+            lg = local_guards(ys[0], l) if ys else set()
+            # negative tests for OTHER event classes (reordered elif branches) add nothing: the classes are disjoint
+            lg_eff = {a for a in lg if not (a.startswith("not:isinstance(event,h2.events.") and "DataReceived" not in a)}
+            ok = len(ys) == 1 and norm(ys[0].value) == "event.data" and lg_eff == {"isinstance(event,h2.events.DataReceived)"}
             rep.ob("C02.R2", fkey(tree, b2, "h2-body-yield"), ok, where(b2, ys[0] if ys else l), "each DataReceived event is yielded once" if ok else f"HTTP/2 body loop: yields {[norm(y.value) for y in ys]} under {[sorted(local_guards(y, l)) for y in ys]}")
             eg = _exit_guards(l)
             okx = len(eg) == 1 and "isinstance(event,h2.events.StreamEnded)" in eg[0] and all("isinstance(event," in a for a in eg[0])
